@@ -342,6 +342,20 @@ let cc_list (ds : (M.n * M.z) list) : string =
 
 let bytes_of_str (s : string) : M.ascii list = List.init (String.length s) (fun i -> ascii_of_int (Char.code s.[i]))
 
+(* text a typed header writes after parsing value v, for the modelled kinds *)
+let typed_written (nm : string) (v : M.ascii list) : string option option =
+  let once parse write = Some (match parse v with None -> None | Some h -> Some (hex_of_bytes (write h))) in
+  match nm with
+  | "connection" -> once (fun x -> Some (M.conn_parse x)) M.conn_write
+  | "content-encoding" | "transfer-encoding" -> once (fun x -> Some (M.enc_parse x)) M.enc_write
+  | "expect" -> once (fun x -> Some (M.expect_parse x)) M.expect_write
+  | "cache-control" -> once M.cc_parse_top M.cc_write
+  | "host" -> once M.host_parse M.host_write
+  | "server" -> once (fun x -> Some (M.server_parse x)) M.server_write
+  | "location" | "user-agent" | "authorization" | "access-control-allow-origin" | "access-control-allow-headers"
+  | "access-control-expose-headers" | "access-control-allow-methods" -> once (fun x -> Some x) (fun x -> x)
+  | _ -> None
+
 let header_case (toks : string list) : string =
   match toks with
   | [ ("T" | "TM"); name; value ] ->
@@ -383,6 +397,12 @@ let header_case (toks : string list) : string =
     (match M.host_parse w with
      | None -> "HO " ^ hex_of_bytes w ^ " err"
      | Some (h2, p2) -> Printf.sprintf "HO %s %s %s" (hex_of_bytes w) (hex_of_bytes h2) (decimal_of_n p2))
+  | [ "DT"; secs ] ->
+    (* Date: FullDate(seconds) written (RFC 1123 form of date.h), read back by the strict reader, written again *)
+    let w = M.date_write (z_of_int (int_of_string secs)) in
+    (match M.date_parse w with
+     | None -> "DT " ^ hex_of_bytes w ^ " err"
+     | Some b -> Printf.sprintf "DT %s %s %s" (hex_of_bytes w) (decimal_of_z b) (hex_of_bytes (M.date_write b)))
   | [ "CQ"; top; sub; q ] ->
     (* Content-Type with a quality: the media type model of C18 (MimeModel.build_string / parse_media) *)
     let w = M.build_string (n_of_int (int_of_string top)) (n_of_int (int_of_string sub)) None (Some (n_of_int (int_of_string q))) [] in
@@ -405,6 +425,26 @@ let header_case (toks : string list) : string =
     let back = M.server_parse w in
     Printf.sprintf "SV %s %s %d%s" (hex_of_bytes w) (hex_of_bytes (M.server_write back)) (List.length back)
       (String.concat "" (List.map (fun t -> " " ^ hex_of_bytes t) back))
+  | "LT" :: msg :: names ->
+    (* typed collection of the parser model (first occurrence wins): registry index of the name, stored value, written text *)
+    let st = M.feed_raw M.pstate_init (bytes_of_hex msg) in
+    (match M.parse_inst M.KRequest st with
+     | (M.PDone, st2) ->
+       let lower b = String.lowercase_ascii (str_of_bytes b) in
+       let index nm = let rec go i = if i > 80 then None else if M.reg_name (n_of_int i) <> [] && lower (M.reg_name (n_of_int i)) = nm then Some (n_of_int i) else go (i + 1) in go 0 in
+       let outs = List.map (fun nmh ->
+           let nm = lower (bytes_of_hex nmh) in
+           match index nm with
+           | None -> Some " N"
+           | Some i ->
+             (match M.typed_get st2.M.p_msg (Some i) with
+              | None -> Some " N"
+              | Some v -> (match typed_written nm v with
+                  | Some (Some w) -> Some (" T" ^ w)
+                  | _ -> None))) names in
+       if List.mem None outs then "IMPL-ONLY"
+       else "LT" ^ String.concat "" (List.map (function Some x -> x | None -> "") outs)
+     | _ -> "LT notdone")
   | "L" :: msg :: names ->
     let st = M.feed_raw M.pstate_init (bytes_of_hex msg) in
     (match M.parse_inst M.KRequest st with
